@@ -41,6 +41,17 @@ Definition matcher_of (m : N) : matcher :=
 Definition def_domain (d : def) : bool :=
   let '(h, p, _) := d in key_domain h && glob_domain p.
 
+(* with glob matching disabled host keys are literal names: brackets (IPv6 literals) are
+   inside the model there (the path is a glob pattern whatever the mode); the request host may
+   carry brackets in both modes (it is only ever the subject of a match) *)
+Definition def_domain_g (globoff : bool) (d : def) : bool :=
+  let '(h, p, _) := d in
+  (if globoff then subject_domain h && match h with c :: _ => negb (c =? 58) | [] => true end else key_domain h)
+  && glob_domain p.
+
+Definition lookup_domain_g (globoff : bool) (defs : list def) (host uri : str) : bool :=
+  forallb (def_domain_g globoff) defs && subject_domain host && subject_domain uri.
+
 Definition lookup_domain (defs : list def) (host uri : str) : bool :=
   forallb def_domain defs && subject_domain host && no_bracket host && subject_domain uri.
 
@@ -52,7 +63,7 @@ Definition is_some {A} (o : option A) : bool := match o with Some _ => true | No
 Definition check_case (c : case) : N :=
   match c with
   | CLookup defs host tls uri mn globoff impl =>
-      if negb (lookup_domain defs host uri) then v_disagree else
+      if negb (lookup_domain_g globoff defs host uri) then v_disagree else
       let m := matcher_of mn in
       let t := new_table defs in
       let model := lookup t host tls uri m globoff in
@@ -122,8 +133,7 @@ Definition check_case (c : case) : N :=
                    | Some (_, _, n) => Some (n - 1) | None => None end in
       verdict (opt_eqb N.eqb impl model) true None (negb (is_nil zeros))
   | CSortHosts hosts impl =>
-      if negb (forallb (fun h => subject_domain h && match h with 91 :: _ => false | _ => true end) hosts)
-      then v_disagree else
+      if negb (forallb subject_domain hosts) then v_disagree else
       let same := list_eqb beq impl (sort_hosts_rhp hosts) in
       (* spec: the hosts handed on are exactly the hosts handed in (a permutation) *)
       let spec := list_eqb beq (sort_desc str_ltb impl) (sort_desc str_ltb hosts) in
@@ -133,6 +143,6 @@ Definition check_case (c : case) : N :=
       verdict (Bool.eqb impl (gobwas_match pattern s)) (Bool.eqb impl (glob_match pattern s))
               (if gobwas_deviates pattern s then Some 6 else None) (has_meta pattern)
   | CRhp s impl =>
-      if negb (subject_domain s && no_bracket s) then v_disagree else
+      if negb (subject_domain s) then v_disagree else
       verdict (beq impl (reverse_host_port s)) true None (has_colon s)
   end.
